@@ -548,6 +548,9 @@ func init() {
 		// teardown while a write is parked by back-pressure on a connection the peer no longer drains
 		jobs = append(jobs, vx.Job{Scenario: "mux.stalledclose", Params: vx.P("tls", "0"), Bound: b(2, 4), Weight: 4})
 		jobs = append(jobs, vx.Job{Scenario: "mux.stalledclose", Params: vx.P("tls", "1"), Bound: b(2, 4), Weight: 4})
+		jobs = append(jobs, vx.Job{Scenario: "mux.lateadd", Bound: b(2, 4), Weight: 3})
+		// a stream with 20 MiB unread (a stalled consumer) when it is given up: the close returns, the session lives on
+		jobs = append(jobs, vx.Job{Scenario: "mux.backlog", Params: vx.P("mb", "20", "close", "1"), Bound: b(0, 1), Weight: 4})
 		// record-layer connections with back-pressure: a write parked on one connection while another fails
 		jobs = append(jobs, vx.Job{Scenario: "mux.fault", Params: vx.P("fault", "reset1", "frames", "2", "tls", "1", "conns", "2", "wlimit", "1", "delay", "1"), Bound: b(1, 2), Weight: 8})
 		// long-lived sessions: a frame for a long-closed stream after thousands of stream closures
